@@ -269,8 +269,21 @@ func Harness_C11_stays_forgotten() {
 	}
 	b.nodes["x"] = x
 	v.Class("F2", x.Unreachable && !x.Left)
+	// B itself may have left gracefully (it keeps answering until it stops):
+	// its own digest must not make A, which has forgotten it, learn it as live
+	bLeft := v.Choose("b.left", 2) == 1
+	if bLeft {
+		b.LeaveLocal()
+	}
 	a.ApplyDigest(b.Digest())
 	_, relearned := a.nodes["x"]
+	_, knowsB := a.nodes["b"]
+	if bLeft {
+		v.Assert("C11/forgotten/leaver-not-relearned-from-its-own-digest", !knowsB)
+		v.Cover("peer-has-left")
+	} else {
+		v.Assert("C11/forgotten/live-peer-learned-from-its-digest", knowsB)
+	}
 	if x.Left || x.Unreachable {
 		v.Assert("C11/forgotten/not-relearned-from-peer-that-lost-it", !relearned)
 		v.Cover("peer-holds-dead-node")
